@@ -126,7 +126,10 @@ impl<V: fmt::Debug + Clone, T: MapView<Value = V> + Clone> MapView for Unprefixe
     }
 
     fn iter(&self) -> Vec<(Identifier, Self::Value)> {
-        unimplemented!()
+        self.keys()
+            .into_iter()
+            .filter_map(|key| self.get(key).map(|value| (key, value)))
+            .collect()
     }
 }
 
@@ -176,7 +179,10 @@ impl<V: fmt::Debug + Clone, T: MapView<Value = V> + Clone> MapView for PrefixedM
     }
 
     fn iter(&self) -> Vec<(Identifier, Self::Value)> {
-        unimplemented!()
+        self.keys()
+            .into_iter()
+            .filter_map(|key| self.get(key).map(|value| (key, value)))
+            .collect()
     }
 }
 
@@ -254,7 +260,10 @@ impl<V: fmt::Debug + Clone, T: MapView<Value = V> + Clone> MapView for LimitedMa
     }
 
     fn iter(&self) -> Vec<(Identifier, Self::Value)> {
-        unimplemented!()
+        self.keys()
+            .into_iter()
+            .filter_map(|key| self.get(key).map(|value| (key, value)))
+            .collect()
     }
 }
 
